@@ -164,7 +164,17 @@ def when_any(ctx):
       # the zero test must come after the decrement
       order_ok = False
       di = [i for i, e in enumerate(ev) if decs and e is decs[0]]
-      zi = [i for i, e in enumerate(ev) if e.kind == 'cond' and (zero, True) in FACTS([e])]
+      # (a named boolean `last = total[0] == 0` tested later was evaluated where it was assigned)
+      def eval_at(i_):
+        n_ = ev[i_].node
+        if isinstance(n_, ast.UnaryOp) and isinstance(n_.op, ast.Not):
+          n_ = n_.operand
+        if isinstance(n_, ast.Name):
+          for j_ in range(i_ - 1, -1, -1):
+            if ev[j_].kind == 'stmt' and isinstance(ev[j_].node, ast.Assign) and any(isinstance(t_, ast.Name) and t_.id == n_.id for t_ in ev[j_].node.targets):
+              return j_
+        return i_
+      zi = [eval_at(i) for c_, t_, i in FACTS_I(ev) if (c_, t_) == (zero, True) and ev[i].kind == 'cond']
       if di and zi and di[0] < zi[0]:
         order_ok = True
       ok = guard and order_ok and not has(fs, '%s.successful()' % arp, True) and U(c.args[0]) == '%s.exception' % arp
